@@ -349,6 +349,40 @@ def _helper_kind(fn: ast.FunctionDef) -> Optional[str]:
     return "tail"
 
 
+def _decision_tree_as_value(h: ast.FunctionDef) -> ast.FunctionDef:
+    """
+    a helper whose body is nothing but a decision tree of returns (`if c: return a` / `return b`, nested) is the helper
+    `return a if c else b`: as such it can be inlined into an expression
+    """
+    cached = h.__dict__.get("_jfsa_value_form")
+    if cached is not None:
+        return cached
+
+    def tree(stmts: List[ast.stmt]) -> Optional[ast.AST]:
+        stmts = [x for x in stmts if not (isinstance(x, ast.Expr) and isinstance(x.value, ast.Constant))]
+        if len(stmts) == 1 and isinstance(stmts[0], ast.Return) and stmts[0].value is not None:
+            return stmts[0].value
+        if len(stmts) == 1 and isinstance(stmts[0], ast.If) and stmts[0].orelse:
+            a, b = tree(stmts[0].body), tree(stmts[0].orelse)
+            if a is not None and b is not None:
+                return ast.copy_location(ast.IfExp(test=stmts[0].test, body=a, orelse=b), stmts[0])
+        if len(stmts) >= 2 and isinstance(stmts[0], ast.If) and not stmts[0].orelse:
+            a, b = tree(stmts[0].body), tree(stmts[1:])
+            if a is not None and b is not None:
+                return ast.copy_location(ast.IfExp(test=stmts[0].test, body=a, orelse=b), stmts[0])
+        return None
+    out = h
+    rets = [n for n in ast.walk(h) if isinstance(n, ast.Return)]
+    if len(rets) > 1:
+        v = tree(body_without_docstring(h))
+        if v is not None:
+            out = copy.copy(h)
+            out.body = [ast.copy_location(ast.Return(value=copy.deepcopy(v)), h.body[-1])]
+            ast.fix_missing_locations(out)
+    h.__dict__["_jfsa_value_form"] = out
+    return out
+
+
 _COUNTER = [0]
 
 
@@ -413,6 +447,7 @@ def _inline_helpers(prog: Program, cls: ClassInfo, fn: ast.FunctionDef, exclude:
             if not is_static and call.func.value.id != "self":
                 return None
             # overridden somewhere below the class: the callee is not unique, leave the call
+            h = _decision_tree_as_value(h)
             kind = _helper_kind(h)
             if kind:
                 return h, kind
@@ -438,6 +473,29 @@ def _inline_helpers(prog: Program, cls: ClassInfo, fn: ast.FunctionDef, exclude:
         return None
 
     changed = False
+
+    # one-expression helpers (`return <expr>` only, also a decision tree of returns) are replaced wherever they are called, also
+    # inside comprehensions and lambdas, by substituting the arguments (simple arguments, or parameters used once)
+    class _Beta(ast.NodeTransformer):
+        def visit_Call(self, node: ast.Call):
+            nonlocal changed
+            self.generic_visit(node)
+            hk = helper_of(node)
+            if hk is None or hk[1] != "value" or node.keywords or any(isinstance(a, ast.Starred) for a in node.args):
+                return node
+            h = hk[0]
+            body = body_without_docstring(h)
+            if len(body) != 1 or h.args.defaults:
+                return node
+            ps = [p_ for p_ in param_names(h)]
+            if any(isinstance(x, ast.Name) and x.id in ("self", "cls") for x in ast.walk(body[0].value)):
+                return node
+            r = _ExprNorm({})._beta(ps, body[0].value, list(node.args))
+            if r is None:
+                return node
+            changed = True
+            return ast.copy_location(r, node)
+    fn.body = [_Beta().visit(st) for st in fn.body]
 
     def do_block(b: List[ast.stmt], ends_function: bool) -> List[ast.stmt]:
         nonlocal changed
@@ -662,6 +720,17 @@ def _genexp_loops(stmts: List[ast.stmt], fn: ast.AST) -> List[ast.stmt]:
                 and isinstance(nxt, ast.For) and isinstance(nxt.iter, ast.Name) and nxt.iter.id == s.targets[0].id and not nxt.orelse \
                 and sum(1 for x in ast.walk(fn) if isinstance(x, ast.Name) and x.id == s.targets[0].id) == 2:
             gen, loop, step = s.value, nxt, 2
+        if isinstance(s, ast.Expr) and isinstance(s.value, ast.YieldFrom) and isinstance(s.value.value, ast.GeneratorExp):
+            # `yield from (e for a in A if c)`  ->  `for a in A: if c: yield e`
+            g0 = s.value.value
+            inner0: List[ast.stmt] = [ast.copy_location(ast.Expr(value=ast.copy_location(ast.Yield(value=g0.elt), s)), s)]
+            for g in reversed(g0.generators):
+                for c in reversed(g.ifs):
+                    inner0 = [ast.copy_location(ast.If(test=c, body=inner0, orelse=[]), s)]
+                inner0 = [ast.copy_location(ast.For(target=g.target, iter=g.iter, body=inner0, orelse=[]), s)]
+            out.extend(_genexp_loops(inner0, fn))
+            i += 1
+            continue
         if gen is not None and not any(isinstance(x, (ast.Break,)) for b_ in loop.body for x in ast.walk(b_)):
             same = ast.unparse(loop.target) == ast.unparse(gen.elt)
             inner: List[ast.stmt] = ([] if same else [ast.copy_location(ast.Assign(targets=[loop.target], value=gen.elt), loop)]) + loop.body
@@ -842,6 +911,23 @@ def _small_loops(stmts: List[ast.stmt], fn: ast.AST) -> List[ast.stmt]:
             out.extend(_small_loops(unrolled, fn))
             i += 1
             continue
+        # (2b) the same over a display of equally long tuples of names with a tuple target: `for a, b in ((x, y), (u, v)): body`
+        if isinstance(s, ast.For) and not s.orelse and isinstance(s.target, ast.Tuple) and all(isinstance(t, ast.Name) for t in s.target.elts) \
+                and isinstance(s.iter, (ast.Tuple, ast.List)) and 1 <= len(s.iter.elts) <= 4 and len(s.body) <= 3 \
+                and all(isinstance(e, (ast.Tuple, ast.List)) and len(e.elts) == len(s.target.elts)
+                        and all(isinstance(x, ast.Name) and x.id not in {t.id for t in s.target.elts} for x in e.elts) for e in s.iter.elts) \
+                and not any(isinstance(x, (ast.Break, ast.Continue)) for b_ in s.body for x in ast.walk(b_)) \
+                and not any(isinstance(x, ast.Name) and x.id in {t.id for t in s.target.elts} and isinstance(x.ctx, ast.Store)
+                            for b_ in s.body for x in ast.walk(b_)):
+            unrolled = []
+            for e in s.iter.elts:
+                body_ = s.body
+                for t, x in zip(s.target.elts, e.elts):
+                    body_ = _rename(body_, t.id, x)
+                unrolled.extend(body_)
+            out.extend(_small_loops(unrolled, fn))
+            i += 1
+            continue
         # (3)
         if isinstance(s, ast.Expr) and isinstance(s.value, ast.Call) and isinstance(s.value.func, ast.Name) and s.value.func.id in nested \
                 and not s.value.args and not s.value.keywords:
@@ -859,8 +945,146 @@ def _small_loops(stmts: List[ast.stmt], fn: ast.AST) -> List[ast.stmt]:
     return out
 
 
-def normalise_function(fn: ast.FunctionDef, prog: Optional[Program] = None) -> None:
+def _zip_elements(fn: ast.AST) -> None:
+    """
+    `for i, (a, b) in enumerate(zip(A, B)): body`  (also `for i, a in enumerate(A)`): inside the body `a` IS `A[i]` as long as the
+    body neither rebinds a / A nor calls a method on A itself; the loads of a are rewritten to A[i] so that rules see which
+    container an element belongs to.  The loop header is kept (same iteration domain).
+    """
+    for lp in ast.walk(fn):
+        if not (isinstance(lp, ast.For) and isinstance(lp.iter, ast.Call) and isinstance(lp.iter.func, ast.Name) and lp.iter.func.id == "enumerate"
+                and len(lp.iter.args) == 1 and not lp.iter.keywords and isinstance(lp.target, ast.Tuple) and len(lp.target.elts) == 2
+                and isinstance(lp.target.elts[0], ast.Name)):
+            continue
+        idx = lp.target.elts[0].id
+        inner, tgt = lp.iter.args[0], lp.target.elts[1]
+        if isinstance(inner, ast.Call) and isinstance(inner.func, ast.Name) and inner.func.id == "zip" and not inner.keywords \
+                and isinstance(tgt, ast.Tuple) and len(tgt.elts) == len(inner.args):
+            pairs = list(zip(tgt.elts, inner.args))
+        elif isinstance(tgt, ast.Name) and isinstance(inner, (ast.Name, ast.Attribute)):
+            continue          # plain enumerate(A): the element name is the common idiom and is left alone
+        else:
+            continue
+        if not all(isinstance(t, ast.Name) and isinstance(a, ast.Name) for t, a in pairs):
+            continue
+        stored = {x.id for b in lp.body for x in ast.walk(b) if isinstance(x, ast.Name) and isinstance(x.ctx, (ast.Store, ast.Del))}
+        called = {x.func.value.id for b in lp.body for x in ast.walk(b) if isinstance(x, ast.Call) and isinstance(x.func, ast.Attribute)
+                  and isinstance(x.func.value, ast.Name)}
+        if idx in stored or any(t.id in stored or a.id in stored or a.id in called for t, a in pairs):
+            continue
+        env = {t.id: ast.Subscript(value=ast.Name(id=a.id, ctx=ast.Load()), slice=ast.Name(id=idx, ctx=ast.Load()), ctx=ast.Load()) for t, a in pairs}
+        lp.body = [_Subst(env).visit(b) for b in lp.body]
+        ast.fix_missing_locations(lp)
+
+
+def _ifexp_statements(stmts: List[ast.stmt]) -> List[ast.stmt]:
+    """`(A if c else B).m(args)` as a statement  ->  `if c: A.m(args) else: B.m(args)`  (the arguments are evaluated after the test either way)"""
+    out: List[ast.stmt] = []
+    for s in stmts:
+        for fld in ("body", "orelse", "finalbody"):
+            b = getattr(s, fld, None)
+            if isinstance(b, list) and b and isinstance(b[0], ast.stmt) and not isinstance(s, (ast.FunctionDef, ast.ClassDef)):
+                setattr(s, fld, _ifexp_statements(b))
+        if isinstance(s, ast.Try):
+            for h in s.handlers:
+                h.body = _ifexp_statements(h.body)
+        if isinstance(s, ast.Expr) and isinstance(s.value, ast.Call) and isinstance(s.value.func, ast.Attribute) \
+                and isinstance(s.value.func.value, ast.IfExp):
+            ie = s.value.func.value
+
+            def branch(recv: ast.AST) -> ast.stmt:
+                c = copy.deepcopy(s.value)
+                c.func.value = recv
+                return ast.copy_location(ast.Expr(value=c), s)
+            out.append(ast.copy_location(ast.If(test=ie.test, body=[branch(ie.body)], orelse=[branch(ie.orelse)]), s))
+            continue
+        out.append(s)
+    return out
+
+
+class _ExprNorm(ast.NodeTransformer):
+    """
+    expression idioms:  map(f, X) -> (f(x) for x in X);  a call of a module-level private one-expression function (`def _h(a): return
+    <expr>`) is replaced by that expression (arguments must be as many as parameters, positional, and a parameter that occurs more
+    than once needs a simple argument);  (lambda a: e)(x) is reduced the same way.
+    """
+
+    def __init__(self, helpers: Dict[str, ast.FunctionDef]) -> None:
+        self.helpers = helpers
+        self.n = 0
+
+    @staticmethod
+    def _simple(e: ast.AST) -> bool:
+        return isinstance(e, (ast.Name, ast.Constant)) or (isinstance(e, (ast.Attribute, ast.Subscript)) and _ExprNorm._simple(e.value)
+                                                            and (not isinstance(e, ast.Subscript) or _ExprNorm._simple(e.slice)))
+
+    def _beta(self, params: List[str], body: ast.AST, args: List[ast.AST]) -> Optional[ast.AST]:
+        if len(params) != len(args):
+            return None
+        uses = {p: sum(1 for x in ast.walk(body) if isinstance(x, ast.Name) and x.id == p) for p in params}
+        if any(uses[p] > 1 and not self._simple(a) for p, a in zip(params, args)):
+            return None
+        if any(isinstance(x, (ast.Lambda, ast.ListComp, ast.GeneratorExp, ast.SetComp, ast.DictComp, ast.NamedExpr)) for x in ast.walk(body)):
+            return None            # inner scopes could capture / shadow: keep the call
+        env = dict(zip(params, args))
+
+        class Sub(ast.NodeTransformer):
+            def visit_Name(self, node: ast.Name):
+                if isinstance(node.ctx, ast.Load) and node.id in env:
+                    return copy.deepcopy(env[node.id])
+                return node
+        return Sub().visit(copy.deepcopy(body))
+
+    def visit_Call(self, node: ast.Call):
+        self.generic_visit(node)
+        if node.keywords or any(isinstance(a, ast.Starred) for a in node.args):
+            return node
+        if isinstance(node.func, ast.Name) and node.func.id == "map" and len(node.args) == 2:
+            self.n += 1
+            v = f"item@map#{self.n}"
+            elt = self.visit(ast.copy_location(ast.Call(func=node.args[0], args=[ast.Name(id=v, ctx=ast.Load())], keywords=[]), node))
+            gen = ast.GeneratorExp(elt=elt, generators=[ast.comprehension(target=ast.Name(id=v, ctx=ast.Store()), iter=node.args[1], ifs=[], is_async=0)])
+            return ast.copy_location(gen, node)
+        if isinstance(node.func, ast.Lambda) and not node.func.args.defaults and not node.func.args.vararg and not node.func.args.kwarg:
+            r = self._beta([a.arg for a in node.func.args.args], node.func.body, node.args)
+            if r is not None:
+                return ast.copy_location(r, node)
+        if isinstance(node.func, ast.Name) and node.func.id in self.helpers:
+            h = self.helpers[node.func.id]
+            body = [st for st in h.body if not (isinstance(st, ast.Expr) and isinstance(st.value, ast.Constant))]
+            r = self._beta([a.arg for a in h.args.args], body[0].value, node.args)
+            if r is not None:
+                return ast.copy_location(r, node)
+        return node
+
+
+def _module_expression_helpers(tree: ast.Module) -> Dict[str, ast.FunctionDef]:
+    out: Dict[str, ast.FunctionDef] = {}
+    for st in tree.body:
+        if isinstance(st, ast.FunctionDef) and st.name.startswith("_") and not st.name.startswith("__") and not st.decorator_list \
+                and not st.args.defaults and not st.args.vararg and not st.args.kwarg and not st.args.kwonlyargs:
+            body = [x for x in st.body if not (isinstance(x, ast.Expr) and isinstance(x.value, ast.Constant))]
+            if len(body) == 1 and isinstance(body[0], ast.Return) and body[0].value is not None \
+                    and not any(isinstance(x, ast.Name) and x.id == st.name for x in ast.walk(body[0].value)) \
+                    and not any(isinstance(x, (ast.Yield, ast.YieldFrom, ast.Await)) for x in ast.walk(body[0].value)):
+                out[st.name] = st
+    # a name that is rebound at module level is not a stable helper
+    for st in tree.body:
+        for t in getattr(st, "targets", []) if isinstance(st, ast.Assign) else []:
+            for x in ast.walk(t):
+                if isinstance(x, ast.Name):
+                    out.pop(x.id, None)
+    return out
+
+
+def normalise_function(fn: ast.FunctionDef, prog: Optional[Program] = None, module_helpers: Optional[Dict[str, ast.FunctionDef]] = None) -> None:
     """in-place normal form of one function (no helper inlining): see the module docstring, steps 2-5"""
+    shadow = {a.arg for a in fn.args.args + fn.args.kwonlyargs} | {x.id for x in ast.walk(fn) if isinstance(x, ast.Name) and isinstance(x.ctx, ast.Store)}
+    helpers = {k: v for k, v in (module_helpers or {}).items() if k not in shadow and v is not fn}
+    en = _ExprNorm(helpers)
+    fn.body = [en.visit(st) for st in fn.body]
+    fn.body = _ifexp_statements(fn.body)
+    _zip_elements(fn)
     fn.body = _fix_ifs(fn.body)
     fn.body = _genexp_loops(fn.body, fn)
     fn.body = _split_tuple_assigns(fn.body)
@@ -884,15 +1108,70 @@ def normalise_function(fn: ast.FunctionDef, prog: Optional[Program] = None) -> N
     fn.body = _fix_ifs(fn.body)
 
 
+def _resolve_cffi_aliases(tree: ast.Module) -> None:
+    """
+    `_lib_f = lib.f` at module level, `_c_f = staticmethod(lib.f)` / `_c_f = lib.f` at class level: calls through the alias
+    (`_lib_f(..)`, `self._c_f(..)`, `Cls._c_f(..)`) are rewritten to `lib.f(..)` so that every rule sees the C function itself.
+    """
+    def origin(v: ast.AST) -> Optional[ast.AST]:
+        while isinstance(v, ast.Call) and isinstance(v.func, ast.Name) and v.func.id == "staticmethod" and len(v.args) == 1:
+            v = v.args[0]
+        if isinstance(v, ast.Attribute) and isinstance(v.value, ast.Name) and v.value.id == "lib":
+            return v
+        return None
+
+    def aliases_of(body: List[ast.stmt]) -> Dict[str, ast.AST]:
+        out: Dict[str, ast.AST] = {}
+        counts: Dict[str, int] = {}
+        for st in body:
+            if isinstance(st, ast.Assign):
+                for t in st.targets:
+                    if isinstance(t, ast.Name):
+                        counts[t.id] = counts.get(t.id, 0) + 1
+                        o = origin(st.value)
+                        if o is not None and len(st.targets) == 1:
+                            out[t.id] = o
+        return {k: v for k, v in out.items() if counts.get(k) == 1}
+
+    mod_aliases = aliases_of(tree.body)
+
+    class Rewrite(ast.NodeTransformer):
+        def __init__(self, cls_name: Optional[str], cls_aliases: Dict[str, ast.AST], shadow: Set[str]) -> None:
+            self.cls_name, self.cls_aliases, self.shadow = cls_name, cls_aliases, shadow
+
+        def visit_Call(self, node: ast.Call):
+            self.generic_visit(node)
+            f = node.func
+            if isinstance(f, ast.Name) and f.id in mod_aliases and f.id not in self.shadow:
+                node.func = ast.copy_location(copy.deepcopy(mod_aliases[f.id]), f)
+            elif isinstance(f, ast.Attribute) and isinstance(f.value, ast.Name) and f.attr in self.cls_aliases \
+                    and f.value.id in ("self", "cls", self.cls_name):
+                node.func = ast.copy_location(copy.deepcopy(self.cls_aliases[f.attr]), f)
+            return node
+
+    def rewrite_functions(body: List[ast.stmt], cls_name: Optional[str], cls_aliases: Dict[str, ast.AST]) -> None:
+        for st in body:
+            if isinstance(st, (ast.FunctionDef, ast.AsyncFunctionDef)):
+                shadow = {a.arg for a in st.args.args + st.args.kwonlyargs} | \
+                    {x.id for x in ast.walk(st) if isinstance(x, ast.Name) and isinstance(x.ctx, ast.Store)}
+                Rewrite(cls_name, cls_aliases, shadow).visit(st)
+            elif isinstance(st, ast.ClassDef):
+                rewrite_functions(st.body, st.name, aliases_of(st.body))
+    if mod_aliases or any(isinstance(st, ast.ClassDef) and aliases_of(st.body) for st in tree.body):
+        rewrite_functions(tree.body, None, {})
+
+
 def normal_form_module(tree: ast.Module, prog: Optional[Program] = None) -> None:
     """
     Front-end normal form: every function of a module is rewritten in place when the module is parsed (guard clauses nested, negated
     tests flipped, `x = x + y` -> `x += y`, single-assignment pure locals propagated), so that every rule -- also those that walk raw
     class bodies -- sees one layout for the many ways the same routine can be written.  Line numbers are kept.
     """
+    _resolve_cffi_aliases(tree)
     fns = [n for n in ast.walk(tree) if isinstance(n, (ast.FunctionDef, ast.AsyncFunctionDef))]
+    helpers = _module_expression_helpers(tree)
     for fn in reversed(fns):
-        normalise_function(fn, prog)
+        normalise_function(fn, prog, helpers)
         fn.__dict__["_jfsa_normal"] = True
     ast.fix_missing_locations(tree)
 
